@@ -1,8 +1,10 @@
 (* Extraction of the hand-written executable models of C08. ExtrOcamlBasic only. *)
 From Coq Require Import ZArith List Extraction ExtrOcamlBasic.
-From C08 Require ArrayBucketModel MultiMapModel.
+From C08 Require ArrayBucketModel MultiMapModel WrapperModel.
 Separate Extraction
   ArrayBucketModel.ab_step ArrayBucketModel.ab_null ArrayBucketModel.rcount ArrayBucketModel.rcap
   ArrayBucketModel.pool_of ArrayBucketModel.fcount_of
   MultiMapModel.step MultiMapModel.st_empty MultiMapModel.traverse MultiMapModel.get_count
-  MultiMapModel.get_key_count MultiMapModel.find MultiMapModel.evals MultiMapModel.lin_pred.
+  MultiMapModel.get_key_count MultiMapModel.find MultiMapModel.evals MultiMapModel.lin_pred
+  WrapperModel.w_size WrapperModel.w_count WrapperModel.w_equal_range WrapperModel.w_insert WrapperModel.w_erase_key
+  WrapperModel.w_erase_if WrapperModel.w_clear WrapperModel.w_erase_at WrapperModel.w_erase_range WrapperModel.w_eq.
